@@ -238,6 +238,9 @@ func mfRenderCase(c mfCase) ([]byte, []mfEntry) {
 	if c.Cls == "cut" {
 		point, _ := c.Arg[0].(string)
 		item, x = mfRenderCut(c.Format, point)
+	} else if c.Cls == "rerun" {
+		base, _ := c.Arg[0].(string)
+		item, x = mfRenderItem(c.Format, base, rest)
 	} else {
 		item, x = mfRenderItem(c.Format, c.Cls, rest)
 	}
